@@ -77,8 +77,10 @@ class BaseModel(SolverMixin, ModelInterface):
             **initial_values,
         )
 
-        self.add_attribute('endogenous', self.ENDOGENOUS)
-        self.add_attribute('check', self.CHECK)
+        # Store copies, to keep instance-level changes from the class (and
+        # other instances)
+        self.add_attribute('endogenous', list(self.ENDOGENOUS))
+        self.add_attribute('check', list(self.CHECK))
 
         self.add_attribute('engine', engine)
 
